@@ -486,11 +486,11 @@ Proof.
   - intros t a. destruct (Nat.eqb t (next_tok s)); [destruct (Nat.eqb a owner); lia | apply I].
 Qed.
 
-Lemma create_from_coin_ok s d s' : Inv s -> exec s (CreateFromCoin d) = Some s' ->
+Lemma create_from_coin_ok s d s' : Inv s -> create_coin_core s d = Some s' ->
   Inv s' /\ (forall m, In m (reg s) -> In m (reg s') /\ slack s' m = slack s m) /\
   exists t, reg s' = reg s ++ [{| m_tok := t; m_den := d; m_coin := true |}].
 Proof.
-  intros I H. simpl in H. unfold bind, guard in H.
+  intros I H. unfold create_coin_core, bind, guard in H.
   destruct (negb (is_some (find_den s d)) && meta s d) eqn:G1; [|discriminate].
   destruct (negb (is_some (find_tok s (next_tok s)))) eqn:G2; [|discriminate].
   inversion H; subst s'; clear H. simpl.
@@ -522,11 +522,11 @@ Proof.
   - exists (next_tok s). reflexivity.
 Qed.
 
-Lemma create_from_erc20_ok s t s' : Inv s -> exec s (CreateFromErc20 t) = Some s' ->
+Lemma create_from_erc20_ok s t s' : Inv s -> create_erc20_core s t = Some s' ->
   Inv s' /\ (forall m, In m (reg s) -> In m (reg s') /\ slack s' m = slack s m) /\
   reg s' = reg s ++ [{| m_tok := t; m_den := DErc t; m_coin := false |}].
 Proof.
-  intros I H. simpl in H. unfold bind, guard in H.
+  intros I H. unfold create_erc20_core, bind, guard in H.
   destruct (negb (is_some (find_tok s t)) && is_some (tk s t) && negb (meta s (DErc t))
             && negb (is_some (find_den s (DErc t)))) eqn:G; [|discriminate].
   inversion H; subst s'; clear H. simpl.
@@ -552,6 +552,26 @@ Proof.
     + apply I.
   - intros m Hm. split; [apply in_or_app; left; exact Hm | reflexivity].
   - reflexivity.
+Qed.
+
+(** the CreateFunToken fee: burned from the sender, no margin moves *)
+Lemma pay_create_fee_good s sender s0 : Inv s -> pay_create_fee s sender = Some s0 ->
+  good_step s s0 /\ (forall m, In m (reg s) -> slack s0 m = slack s m) /\
+  (forall d, bank s0 Module d = bank s Module d) /\ ebal s0 = ebal s.
+Proof.
+  intros I H. unfold pay_create_fee, bind, guard in H.
+  destruct (negb (Nat.eqb sender Module)) eqn:G; [|discriminate]. decode.
+  pose proof (bank_burn_nn _ _ _ _ _ (inv_nn _ I) H) as N.
+  apply bank_burn_spec in H as [F [X [B [S [Eb Es]]]]].
+  assert (Bm : forall d, bank s0 Module d = bank s Module d).
+  { intro d. rewrite B. rewrite (proj2 (Nat.eqb_neq Module sender)) by congruence. unfold ind. split_ifs; lia. }
+  assert (Hsl : forall m, In m (reg s) -> slack s0 m = slack s m).
+  { intros m Hm. unfold slack. rewrite Bm, S, Eb, Es. destruct (m_coin m) eqn:Hc; [reflexivity|].
+    rewrite (inv_erc_den _ I m Hm Hc). unfold DGas. simpl. unfold ind. lia. }
+  split; [|split; [exact Hsl|split; [exact Bm|exact Eb]]].
+  split; [exact F|]. split; [|split; [|exact N]].
+  - intros m Hm. rewrite (Hsl m Hm). lia.
+  - intros t _. rewrite S. unfold DGas. simpl. unfold ind. lia.
 Qed.
 
 (** * Every operation preserves the invariant, keeps every mapping, and never lowers a margin *)
@@ -588,11 +608,19 @@ Proof.
     split; [apply new_token_inv; assumption|].
     intros m Hm. split; [exact Hm|]. rewrite slack_new_token; [lia | apply I; exact Hm].
   - (* CreateFromCoin *)
-    destruct (create_from_coin_ok s d s' I H) as [I' [Hk _]]. split; [exact I'|].
-    intros m Hm. destruct (Hk m Hm) as [A B]. split; [exact A | lia].
+    unfold bind in H. destruct (pay_create_fee s sender) as [s0|] eqn:Pf; [|discriminate].
+    destruct (pay_create_fee_good s sender s0 I Pf) as [G0 [K0 _]].
+    destruct (good_step_ok s s0 I G0) as [I0 R0].
+    destruct (create_from_coin_ok s0 d s' I0 H) as [I' [Hk _]]. split; [exact I'|].
+    intros m Hm. destruct (R0 m Hm) as [A0 _]. destruct (Hk m A0) as [A B]. split; [exact A|].
+    rewrite B, (K0 m Hm). lia.
   - (* CreateFromErc20 *)
-    destruct (create_from_erc20_ok s t s' I H) as [I' [Hk _]]. split; [exact I'|].
-    intros m Hm. destruct (Hk m Hm) as [A B]. split; [exact A | lia].
+    unfold bind in H. destruct (pay_create_fee s sender) as [s0|] eqn:Pf; [|discriminate].
+    destruct (pay_create_fee_good s sender s0 I Pf) as [G0 [K0 _]].
+    destruct (good_step_ok s s0 I G0) as [I0 R0].
+    destruct (create_from_erc20_ok s0 t s' I0 H) as [I' [Hk _]]. split; [exact I'|].
+    intros m Hm. destruct (R0 m Hm) as [A0 _]. destruct (Hk m A0) as [A B]. split; [exact A|].
+    rewrite B, (K0 m Hm). lia.
   - (* ConvertCoinToEvm *)
     unfold bind, guard in H. destruct (negb (Nat.eqb sender Module)) eqn:G; [|discriminate]. decode.
     destruct (find_den s d) as [m0|] eqn:Fd; [|discriminate]. apply find_den_some in Fd as [Hm0 _].
@@ -718,17 +746,28 @@ Lemma unique_mapping ops :
   NoDup (map m_tok (reg (run init ops))) /\ NoDup (map m_den (reg (run init ops))).
 Proof. pose proof (run_inv init ops init_inv) as I. split; apply I. Qed.
 
-Lemma create_coin_rejected s d : In d (map m_den (reg s)) -> exec s (CreateFromCoin d) = None.
+Lemma pay_create_fee_reg s sender s0 : pay_create_fee s sender = Some s0 -> reg s0 = reg s /\ tk s0 = tk s.
 Proof.
-  intro H. destruct (find_den_in s d H) as [m E]. simpl. rewrite E. reflexivity.
+  unfold pay_create_fee, bind, guard. destruct (negb (Nat.eqb sender Module)); [|discriminate].
+  intro H. apply bank_burn_spec in H as [[F1 [F2 F3]] _]. auto.
 Qed.
 
-Lemma create_erc20_rejected s t :
-  In t (map m_tok (reg s)) \/ In (DErc t) (map m_den (reg s)) -> exec s (CreateFromErc20 t) = None.
+Lemma create_coin_rejected s sender d : In d (map m_den (reg s)) -> exec s (CreateFromCoin sender d) = None.
 Proof.
-  intros [H|H]; simpl.
-  - destruct (find_tok_in s t H) as [m E]. rewrite E. reflexivity.
-  - destruct (find_den_in s _ H) as [m E]. rewrite E. simpl. rewrite !andb_false_r. reflexivity.
+  intro H. simpl. unfold bind. destruct (pay_create_fee s sender) as [s0|] eqn:Pf; [|reflexivity].
+  destruct (pay_create_fee_reg _ _ _ Pf) as [R _].
+  assert (H0 : In d (map m_den (reg s0))) by (rewrite R; exact H).
+  destruct (find_den_in s0 d H0) as [m E]. unfold create_coin_core. rewrite E. reflexivity.
+Qed.
+
+Lemma create_erc20_rejected s sender t :
+  In t (map m_tok (reg s)) \/ In (DErc t) (map m_den (reg s)) -> exec s (CreateFromErc20 sender t) = None.
+Proof.
+  intro H. simpl. unfold bind. destruct (pay_create_fee s sender) as [s0|] eqn:Pf; [|reflexivity].
+  destruct (pay_create_fee_reg _ _ _ Pf) as [R _]. unfold create_erc20_core. rewrite <- R in H.
+  destruct H as [H|H].
+  - destruct (find_tok_in s0 t H) as [m E]. rewrite E. reflexivity.
+  - destruct (find_den_in s0 _ H) as [m E]. rewrite E. simpl. rewrite !andb_false_r. reflexivity.
 Qed.
 
 (** a failed or reverted transaction changes nothing at all *)
@@ -876,20 +915,20 @@ Definition fee10 (sink : acct) : tbeh :=
   {| tb_fee := fun x => x * 10 / 100; tb_sink := sink; tb_heavy := false; tb_false := false; tb_burn := false; tb_pos := true |}.
 
 Definition ex_ops : list op :=
-  [ SetMeta (DCoin 0); Fund 3 (DCoin 0) 1000;
-    CreateFromCoin (DCoin 0);                           (* token 0, coin-born *)
+  [ SetMeta (DCoin 0); Fund 3 (DCoin 0) 1000; Fund 3 DGas 100000000000;
+    CreateFromCoin 3 (DCoin 0);                         (* token 0, coin-born *)
     ConvertCoinToEvm 3 (DCoin 0) 300 1;
     SendToBank 1 0 70 4;
     Framed FInnerRevert (SendToBank 1 0 50 4);
     Deploy 1 (fee10 (tok_addr 1)) 1000;                 (* token 1, fee on transfer *)
-    CreateFromErc20 1;
+    CreateFromErc20 3 1;
     SendToBank 1 1 100 3;                               (* module measures +90, mints 90 *)
     ConvertCoinToEvm 3 (DErc 1) 40 2;                   (* burns 40, releases 40 (recipient gets 36) *)
-    CreateFromCoin (DCoin 0); CreateFromErc20 1; CreateFromErc20 0 ]%nat.
+    CreateFromCoin 3 (DCoin 0); CreateFromErc20 3 1; CreateFromErc20 3 0 ]%nat.
 
 Example ex_ops_outcomes :
   map (fun o => snd o) (snd (fold_left (fun acc o => let r := step (fst acc) o in (fst r, snd acc ++ [(o, snd r)])) ex_ops (init, [])))
-  = [true; true; true; true; true; true; true; true; true; true; false; false; false].
+  = [true; true; true; true; true; true; true; true; true; true; true; false; false; false].
 Proof. vm_compute. reflexivity. Qed.
 
 Example ex_ops_view :
@@ -910,7 +949,7 @@ Example send_to_bank_credits_measured_nonvacuous :
   exists s caller t x to s', reachable s /\ exec s (SendToBank caller t x to) = Some s' /\
     bank s' to (DErc t) - bank s to (DErc t) = 90 /\ x = 100.
 Proof.
-  exists (run init (firstn 8 ex_ops)), 1%nat, 1%nat, 100, 3%nat.
-  eexists. split; [exists (firstn 8 ex_ops); reflexivity|]. split; [vm_compute; reflexivity|].
+  exists (run init (firstn 9 ex_ops)), 1%nat, 1%nat, 100, 3%nat.
+  eexists. split; [exists (firstn 9 ex_ops); reflexivity|]. split; [vm_compute; reflexivity|].
   vm_compute. split; reflexivity.
 Qed.
